@@ -66,7 +66,7 @@ CONFLICT = {"s", "v"}
 # with a single numeric line would be a valid int32 lexical form with surrounding white space.
 # value pools.  No string is a valid but non-canonical lexical form of int32 / bits / identityref, so libyang's
 # canonisation of the string operand of a comparison (set_comp_canonize, deliberate) is the identity on them.
-STR_POOL = ["a", "b", "c", "ab", "abc", "x y", "5", "10", "-7", "1.5", "true", "dflt", "a b  c", " lead", "trail ", "1e3", "it's", 'say "hi"',
+STR_POOL = ["a", "b", "c", "ab", "abc", "x y", "5", "10", "-7", "1.5", "true", "dflt", "a b  c", " lead", "trail ", "1e3", "it's", 'say "hi"', "p\tq", "p\nq", "\tr\n", "s \t\n t",
             "a'b\"c", "x", "y", "z", "0", "", "<&>", "A", "bx", "NaN", "Infinity", "ü€x", "añb"]
 KEY_POOL = ["a", "b", "c", "ab", "x y", "5", "10", "it's", 'q"q', "a'b\"c", "x", "y", "z", "k 1", "A"]
 INT_POOL = [0, 1, 2, 3, 5, 10, -7, 100, 4, 7]
@@ -195,6 +195,8 @@ def render(e, rng=None, ctxprec=0):
     if k == "fn": return e[1] + "(" + ", ".join(render(a, rng, 0) for a in e[2]) + ")"
     if k == "neg":
         a = render(e[1], rng, 0)
+        if e[1][0] == "neg" and rng and rng.random() < 0.6:
+            return rng.choice(["-", "- "]) + a          # UnaryExpr ::= '-' UnaryExpr: no parentheses needed
         return "-" + ("(" + a + ")" if e[1][0] in ("bin", "neg") or a == "/" else a)
     if k == "bin":
         p = PREC[e[1]]
@@ -496,7 +498,10 @@ class Gen:
             if x < 0.5: return ("bin", r.choice(["add", "sub", "mul"]), self.expr("num", d, cur), self.expr("num", d, cur))
             if x < 0.56: return ("bin", r.choice(["div", "mod"]), self.expr("num", d, cur), ("num", r.choice([2, 4, 0, 8]), 0))
             if x < 0.60: return ("bin", "mod", self.expr("num", d, cur), self.expr("num", d, cur))
-            if x < 0.64: return ("neg", self.expr("num", d, cur))
+            if x < 0.64:
+                y = r.random()
+                if y < 0.25: return ("neg", ("neg", self.expr(r.choice(["ns", "str", "any"]), d, cur)))
+                return ("neg", self.expr("num" if y < 0.8 else "any", d, cur))
             if x < 0.72: return ("fn", "count", [self.expr("ns", d, cur)])
             if x < 0.78: return ("fn", "sum", [self.expr("ns", d, cur)])
             if x < 0.84: return ("fn", "number", [self.expr("any", d, cur)] if r.random() < 0.85 else [])
